@@ -392,6 +392,7 @@ func main() {
 	sort.Strings(keys)
 	exit := 0
 	nviol := 0
+	raceGroups, raceSkipped := 0, 0
 	var knownHit []string
 	var report []map[string]any
 	os.MkdirAll(filepath.Join(root, "replays"), 0o755)
@@ -401,6 +402,14 @@ func main() {
 			fmt.Printf("KNOWN-FINDING: property=%s %s.%s [%s] %s (seen in %d runs)\n", prop, prop, g.clause, g.sig, f.What, g.count)
 			knownHit = append(knownHit, g.clause+"/"+g.sig)
 			continue
+		}
+		if g.clause == "race" {
+			raceGroups++
+			if raceGroups > 6 {
+				// each race signature costs a fresh race-binary process to verify; the first ones are the verdict
+				raceSkipped++
+				continue
+			}
 		}
 		// minimise and replay-verify in fresh processes
 		if g.best == nil {
@@ -465,6 +474,9 @@ func main() {
 		report = append(report, map[string]any{"clause": g.clause, "sig": g.sig, "runs": g.count, "replay": rel, "message": trunc(g.msg, 1500)})
 	}
 
+	if raceSkipped > 0 {
+		fmt.Printf("NOTE: %d further race signatures were seen and not replayed (the first 6 are reported above)\n", raceSkipped)
+	}
 	wall := time.Since(start).Seconds()
 	level := "exploration"
 	evaluations := len(results)
